@@ -140,7 +140,7 @@ def gen_plan(rng, index, tier):
         elif op == "rotate":
             kw["k"] = rng.choice([1, 2, 3, 5])
         elif op == "std":
-            kw["which"] = rng.choice(["power", "flux", "mgFlux", "keff", "notes", "buLimit", "pdens", "detailedNDens", "percentBuByPin", "nozzleType", "crElevation"])
+            kw["which"] = rng.choice(["power", "flux", "mgFlux", "keff", "notes", "buLimit", "pdens", "detailedNDens", "percentBuByPin", "nozzleType", "crElevation", "xsType"])
             if kw["which"] in ("nozzleType", "crElevation") and cfg.get("reactor") == "gen":
                 cfg["blueprint"]["nozzle"] = True
         steps.append(c06._mk_step(0, a["name"], pt, op, **kw))
@@ -348,6 +348,9 @@ def op_std(d, st, actor):
         for j, bb in enumerate(blks):
             mult = max([int(c.getDimension("mult")) for c in bb if c.getDimension("mult")] or [1])
             bb.p.percentBuByPin = [round(0.01 * u + 0.001 * j + 1e-4 * i, 6) for i in range(mult)]
+    elif w == "xsType":
+        # cross-section types beyond the 26 capital letters are lower-case letters
+        b.p.xsType = ["B", "a", "q", "z", "Z"][st["u"] % 5]
     elif w == "nozzleType":
         # a value the assembly design states in the blueprints, changed during the run (a re-orificing)
         b.parent.p.nozzleType = f"Orifice-{st['u']}"
